@@ -290,7 +290,21 @@ func WorkerMain() {
 		os.Exit(3)
 	}
 	r := c.Run(u)
-	b, _ := json.Marshal(r)
+	b, err := json.Marshal(r)
+	if err != nil {
+		// NaN/Inf or other unencodable values in a witness: stringify the witnesses
+		for i := range r.Violations {
+			v := &r.Violations[i]
+			v.Case, v.Expected, v.Observed = fmt.Sprintf("%v", v.Case), fmt.Sprintf("%v", v.Expected), fmt.Sprintf("%v", v.Observed)
+		}
+		for i := range r.Samples {
+			r.Samples[i] = fmt.Sprintf("%v", r.Samples[i])
+		}
+		b, err = json.Marshal(r)
+		if err != nil {
+			b, _ = json.Marshal(Result{Err: "result not encodable: " + err.Error()})
+		}
+	}
 	fmt.Printf("\n@@RESULT %s\n", b)
 }
 
